@@ -208,3 +208,14 @@ def build(sess):
                         'ambient mp.dps>=1; the result is proved equal to the closed form of the recurrence (lemma L1, proved by '
                         'induction) and every mpmath operation is proved exact at 103 bits. The aliases are verified modularly '
                         'against move_dist_lt as an uninterpreted function of its arguments.')
+
+
+def fallback(sess):
+    out = []
+    for fn in ('move_dist_lt', 'moveDistLMA', 'moveDistLM'):
+        for dps in (15, 5):
+            r = native('n_c01', 'search', {'fn': fn, 'dps': dps, 'n': 4000})
+            r['what'] = f'n_c01.search[{fn},dps={dps}]'
+            r.setdefault('tried', 4000)
+            out.append(r)
+    return out
